@@ -139,6 +139,103 @@ def _violation(case, finding, info):
     return {"sig": sig, "input": case, "what": finding["what"], "config": {"driver": "c14"}}
 
 
+def cross_class_cases(seed):
+    """Merge results handed on to a RELATED partial class (child schema), top level.
+
+    x, y: partials of a parent class P; z: partial of a child class Q (Q <- P).  For all x, y (and z):
+    Q.cast(x.y) keeps every value of x.y;  z.(x.y) == (z.x).y == reference;  operands unchanged.
+    Both factories (plain BaseModel + PartialFactory, MetadataSchema + .Partial).
+    """
+    import itertools
+
+    viol = []
+    n = 0
+    a_vals = [M.MISSING, 0, 1]
+    k_vals = [M.MISSING, [], [1]]
+    b_vals = [M.MISSING, 0, 2]
+
+    def ref(d1, d2):
+        out = dict(d1)
+        for key, v in d2.items():
+            if key not in out:
+                out[key] = v
+            elif isinstance(v, list):
+                out[key] = out[key] + v
+            elif out[key] == v:
+                raise KeyError("ambiguous")  # equal scalar twice: the library may raise or keep it (both accepted)
+            else:
+                raise ValueError("conflict")
+        return out
+
+    for factory, pc, qc in (("plain", "M", "M2"), ("plain", "M", "M3"), ("schema", "M", "M2")):
+        try:
+            P, Q = M.partial_class(factory, pc), M.partial_class(factory, qc)
+        except Exception:
+            continue
+        specs = [{k: v for k, v in (("a", a), ("k", kk)) if v is not M.MISSING} for a in a_vals for kk in k_vals]
+        zspecs = [{k: v for k, v in (("a", a), ("b", b)) if v is not M.MISSING} for a in (M.MISSING, 1) for b in b_vals]
+        for xs, ys in itertools.product(specs, specs):
+            n += 1
+            mk = lambda cls, sp: cls.parse_obj({k: (list(v) if isinstance(v, list) else v) for k, v in sp.items()})  # noqa: E731
+            try:
+                exp = ref(xs, ys)
+            except ValueError:
+                exp = None
+            except KeyError:
+                continue
+            x, y = mk(P, xs), mk(P, ys)
+            try:
+                r = x.merge_with(y)
+            except ValueError:
+                r = None
+            if (r is None) != (exp is None):
+                continue  # plain same-class merge is judged by the main families
+            if r is None:
+                continue
+            sig0 = {"law": "cast-of-merge-result", "factory": factory, "classes": f"{pc}->{qc}"}
+            try:
+                rq = Q.cast(r)
+                got = M.observe(rq)
+            except Exception as ex:
+                viol.append({"sig": dict(sig0, observed="error:" + type(ex).__name__), "input": {"kind": "xclass", "x": xs, "y": ys}, "what": f"{qc}.Partial.cast(x.y) raised {type(ex).__name__}: {ex}", "config": {"driver": "c14"}})
+                continue
+            if M.canon(got) != M.canon(M.observe(r)) or M.canon(got) != M.canon(exp):
+                viol.append({"sig": dict(sig0, observed="value-lost"), "input": {"kind": "xclass", "x": xs, "y": ys}, "what": f"x.y = {M.observe(r)} (reference {exp}) but cast into the child partial class it is {got}", "config": {"driver": "c14"}})
+                continue
+            for zs in zspecs:
+                n += 1
+                z = mk(Q, zs)
+                outs = []
+                for assoc in ("z.(x.y)", "(z.x).y"):
+                    try:
+                        if assoc == "z.(x.y)":
+                            o = z.merge_with(mk(P, xs).merge_with(mk(P, ys)))
+                        else:
+                            o = z.merge_with(mk(P, xs)).merge_with(mk(P, ys))
+                        outs.append(M.canon(M.observe(o)))
+                    except ValueError:
+                        outs.append("error")
+                    except Exception as ex:
+                        outs.append("crash:" + type(ex).__name__)
+                try:
+                    e3 = M.canon(ref(zs, exp))
+                except ValueError:
+                    e3 = "error"
+                except KeyError:
+                    e3 = outs[0]  # ambiguous reference: only associativity is judged
+                if outs[0] != outs[1] or outs[0] != e3:
+                    viol.append({"sig": dict(sig0, law="associativity-across-classes", observed="differs"), "input": {"kind": "xclass", "x": xs, "y": ys, "z": zs}, "what": f"z.(x.y) = {outs[0]}, (z.x).y = {outs[1]}, reference {e3}", "config": {"driver": "c14"}})
+                    break
+    # one report per class of failure
+    seen, out = set(), []
+    for v in viol:
+        key = json.dumps(v["sig"], sort_keys=True)
+        if key not in seen:
+            seen.add(key)
+            out.append(v)
+    return out, n
+
+
 def run(tier, seed):
     BB = bounds(tier)
     C.worker_init(tier, seed)
@@ -245,6 +342,10 @@ def run(tier, seed):
             }
         )
 
+    xc_viol, xc_cases = cross_class_cases(seed)
+    violations += xc_viol
+    tot["cases"] += xc_cases
+
     distinct = sum(bin(b).count("1") for b in bitmaps.values())
     samples = _samples(BB["generated"])
     cov = {
@@ -320,6 +421,13 @@ def replay(data):
     """Re-execute one recorded case against the current tree (no pool, no enumeration)."""
     C.worker_init("quick", env.seed())
     case = data["input"]
+    if case.get("kind") == "xclass":
+        vs, _ = cross_class_cases(env.seed())
+        want = json.dumps(data["sig"], sort_keys=True)
+        for v in vs:
+            if json.dumps(v["sig"], sort_keys=True) == want:
+                return v
+        return None
     if case.get("kind") == "item":
         import importlib
 
